@@ -664,3 +664,65 @@ package solver
 //@     invariant flags: forall(v, 0, s.nbVars, s.assumptions[v] <==> exists(k, 0, rangei, old(lits[k]) / 2 == v))
 //@     invariant bound: forall(k, 0, rangei, s.model[old(lits[k]) / 2] == ite(old(lits[k]) % 2 == 0, 1, -1))
 //@     invariant units: forall(k, 0, len(s.units), s.model[old(s.units[k]) / 2] == ite(old(s.units[k]) % 2 == 0, 1, -1))
+
+// ---------------------------------------------------------------- literal encoding and clause flags (C01)
+
+//@ func (Lit).IsPositive
+//@   requires nonneg: l >= 0
+//@   ensures  def: result <==> l % 2 == 0
+
+//@ func (Var).Lit
+//@   requires rng: v >= 0 && v < 1073741823
+//@   ensures  def: result == 2 * v
+
+//@ func (Var).SignedLit
+//@   requires rng: v >= 0 && v < 1073741823
+//@   ensures  def: result == ite(signed, 2 * v + 1, 2 * v)
+
+//@ func (Var).Int
+//@   requires rng: v >= 0 && v < 2147483647
+//@   ensures  def: result == v + 1
+
+//@ func IntToVar
+//@   requires rng: i >= 1
+//@   ensures  def: result == i - 1
+
+//@ func IntsToLits
+//@   requires rng: forall(k, 0, len(vals), vals[k] != 0 && -1073741824 <= vals[k] && vals[k] <= 1073741824)
+//@   ensures  conv: len(result) == len(vals) && forall(k, 0, len(vals), result[k] == ilit(vals[k]))
+//@   loop 1
+//@     invariant idx: 0 <= rangei && rangei <= len(vals) && len(res) == len(vals) && fresh(res)
+//@     invariant conv: forall(k, 0, rangei, res[k] == ilit(vals[k]))
+
+// the flag bits of lbdValue: learned (bit 31), locked (bit 30), low 30 bits = lbd or cardinality-1
+//@ func NewClause
+//@   ensures  def: result != nil && fresh(result) && result.lits == lits && result.pbData == nil && result.Cardinality() == 1 && !result.Learned()
+
+//@ func NewCardClause
+//@   requires card: 1 <= card && card <= len(lits) && card <= 1073741824
+//@   ensures  def: result != nil && fresh(result) && result.lits == lits && result.pbData == nil && result.Cardinality() == card && !result.Learned()
+
+//@ func NewLearnedClause
+//@   ensures  def: result != nil && fresh(result) && result.lits == lits && result.pbData == nil && result.Learned() && result.Cardinality() == 1 && result.lbd() == 0 && !result.isLocked()
+
+//@ func (*Clause).lock
+//@   requires nn: c != nil
+//@   modifies c.lbdValue
+//@   ensures  keep: c.Learned() == old(c.Learned()) && c.lbd() == old(c.lbd()) && (c.Learned() ==> c.isLocked()) && c.Cardinality() == old(c.Cardinality())
+
+//@ func (*Clause).unlock
+//@   requires nn: c != nil
+//@   modifies c.lbdValue
+//@   ensures  keep: c.Learned() == old(c.Learned()) && c.lbd() == old(c.lbd()) && !c.isLocked() && c.Cardinality() == old(c.Cardinality())
+
+//@ func (*Clause).swap
+//@   requires idx: c != nil && 0 <= i && i < len(c.lits) && 0 <= j && j < len(c.lits) && (c.pbData != nil ==> len(c.pbData.weights) == len(c.lits))
+//@   modifies c.lits[*], c.pbData.weights[*]
+//@   ensures  swp: c.lits[i] == old(c.lits[j]) && c.lits[j] == old(c.lits[i]) && forall(k, 0, len(c.lits), k != i && k != j ==> c.lits[k] == old(c.lits[k]))
+
+//@ func (*Clause).removeLit
+//@   requires idx: c != nil && 0 <= idx && idx < len(c.lits) && (c.pbData != nil ==> len(c.pbData.weights) == len(c.lits))
+//@   modifies c.lits, c.lits[*], c.pbData.weights, c.pbData.weights[*]
+//@   ensures  len:  len(c.lits) == old(len(c.lits)) - 1 && (c.pbData != nil ==> len(c.pbData.weights) == len(c.lits))
+//@   ensures  moved: idx < len(c.lits) ==> c.lits[idx] == old(c.lits[len(c.lits)-1])
+//@   ensures  rest: forall(k, 0, len(c.lits), k != idx ==> c.lits[k] == old(c.lits[k]))
